@@ -162,6 +162,9 @@ Section RT.
     rewrite app_nil_r. reflexivity.
   Qed.
 
+  Lemma rt_rule c n : RT (FRule c n).
+  Proof. unfold RT, md_lines. cbn [tok_of block_lines spell map bare repeat app]. reflexivity. Qed.
+
   Lemma rt_fence ch n content : wf_b (FFence ch n content) = true -> RT (FFence ch n content).
   Proof.
     intros Hw. destruct (fence_wf ch n content Hw) as ((Hch & Hn) & Hok & _).
@@ -178,8 +181,8 @@ Section RT.
   Lemma rt_all : forall f t, (depth t <= f)%nat -> wf_b t = true -> RT t.
   Proof.
     induction f as [|f IH]; intros t Hd Hw.
-    - destruct t as [c body more|ch n content|ts|mk pad ts|lv hc hb]; [apply rt_para; exact Hw|apply rt_fence; assumption|cbn [depth] in Hd; lia|cbn [depth] in Hd; lia|apply rt_head; exact Hw].
-    - destruct t as [c body more|ch n content|ts|mk pad ts|lv hc hb]; [apply rt_para; exact Hw|apply rt_fence; assumption| | |apply rt_head; exact Hw].
+    - destruct t as [c body more|ch n content|ts|mk pad ts|lv hc hb|rc rn]; [apply rt_para; exact Hw|apply rt_fence; assumption|cbn [depth] in Hd; lia|cbn [depth] in Hd; lia|apply rt_head; exact Hw|apply rt_rule].
+    - destruct t as [c body more|ch n content|ts|mk pad ts|lv hc hb|rc rn]; [apply rt_para; exact Hw|apply rt_fence; assumption| | |apply rt_head; exact Hw|apply rt_rule].
       + (* quote *)
         cbn [wf_b] in Hw. repeat rewrite andb_true_iff in Hw. destruct Hw as [[Hs Hall] Hg].
         assert (Hch : Forall RT ts).
